@@ -285,6 +285,11 @@ def run(ctx):
                 if u[0].split("(")[0] in sd_t and not any(e[0].split(" ")[0] == u[0].split("(")[0] for e in es):
                     a = add(pos, [(False, [u] + es, False)], "list form")
                     pairs.append((ref, a, "KF:list-form `%s` next to supported attributes at %s" % (u[0], pos)))
+                    # in a list of its own the unparseable list is dropped, the other lists must be unaffected
+                    b = add(pos, [(False, [u], False), (False, es, False)], "list form in its own list, first")
+                    c = add(pos, [(False, es, False), (False, [u], False)], "list form in its own list, last")
+                    pairs.append((ref, b, "an unparseable #[serde(%s)] before another #[serde(..)] at %s" % (u[0], pos)))
+                    pairs.append((ref, c, "an unparseable #[serde(%s)] after another #[serde(..)] at %s" % (u[0], pos)))
         # (4) #[ts(skip)] switches serde parsing off on fields and variants
         if pos in ("field", "variant"):
             for k in shared:
